@@ -16,10 +16,14 @@ Executable model (core Lean only) of ONE action on the harness-controlled execut
 | `readyStep`                        | the harness completes the dispatched future's `oneshot` (wake)                        |
 | `pollTask` → `abortArm` / `futArm` / park | one poll of the spawned `async move { select_biased! { _ = abort_rx => …, result = fut => … }; if in_flight == 0 { input = None } }` (abort arm first) |
 | `pollTaskOld`, `pollStepOld`, `stepOld`, `runOld` | the same task before the repair `fix: ActionAbortHandle::abort() takes priority …` (F-C17-1): unbiased `select!`, kept for the regression witness |
-| `clearStep`                        | `ArcAction::clear` (`value = None`, nothing else)                                     |
+| `clearStep`                        | `ArcAction::clear` (`value = None`, nothing else); `Action::clear` is `try_with_value`: silently nothing once the arena handle is disposed |
+| `suppressStep`, `State.suppress`   | `diagnostics::suppress_resource_load(b)` / `is_suppressing_resource_load()`: while set, `dispatch` does nothing at all (no task, no `in_flight`, no `input`; the returned abort handle is inert) |
+| `disposeStep`, `State.disposed`    | the arena handle `Action` is disposed (`Dispose::dispose` or clean-up of the owner it was created under). `dispatch` through the handle then panics before touching anything (`unwrap_signal!`), `clear` does nothing; the spawned tasks own `Arc` clones of the signals and run on, observable through signals (`version()`, `value()`, …) obtained earlier under an owner that is still alive. An `ArcAction` is not affected by owner clean-up (the driver maps `cleanup` on `Arc` kinds to no event). |
 | `readyList`, `pollStep`            | `sched::ready()`, `sched::poll_nth_ready(j)` (index modulo the length)                 |
 | `State.pending`                    | `ArcAction::pending` = `Memo(in_flight > 0)`                                          |
-| `M.*`                              | `ArcMultiAction::dispatch` / `dispatch_sync`, `ArcSubmission::cancel`, the spawned `async move { fut.await; … }` (multi_action.rs) |
+| `M.*`                              | `ArcMultiAction::dispatch` / `dispatch_sync`, `ArcSubmission::cancel`, the spawned `async move { fut.await; … }` (multi_action.rs); `M.State.suppress` as above (`dispatch_sync` is not suppressed); `M.State.disposed`: `MultiAction::dispatch/dispatch_sync` are `try_with_value`, silently nothing after disposal |
+| (driver) `dispatchl`               | `dispatch_local`: same body as `dispatch` except `Executor::spawn_local`; same model event |
+| (driver) kinds `server-*`          | `leptos_server::{ArcServerAction, ServerAction, ArcServerMultiAction, ServerMultiAction}`: `ArcAction::new_with_value(err, |i| S::run_on_client(i.clone()))` + `Deref`; the initial value is `Some(Err(decode_err(e)))` iff a `ServerActionError` context with `path == S::PATH` exists — same model with `init (some e)` / `init none` |
 
 `select_biased!` looks at its arms in source order: the abort arm first.  When the abort message
 and the future's result are both available at the same poll, the abort arm runs (deterministic).
@@ -80,6 +84,10 @@ structure State where
   version : Nat := 0
   dispatched : Nat := 0
   tasks : List Task := []
+  /-- `SUPPRESS_RESOURCE_LOAD` -/
+  suppress : Bool := false
+  /-- the arena handle is gone -/
+  disposed : Bool := false
   /-- ghost: `new_with_value` argument -/
   initVal : Option Val := none
   /-- ghost: input of the most recent dispatch -/
@@ -96,6 +104,8 @@ inductive Event where
   /-- poll the `j mod len`-th entry of the ready list -/
   | poll (j : Nat)
   | clear
+  | suppress (b : Bool)
+  | dispose
 deriving DecidableEq, Repr
 
 def modifyAt {α : Type} (f : α → α) : List α → Nat → List α
@@ -117,13 +127,19 @@ def readyList (s : State) : List Nat := readyFrom 0 s.tasks
 
 def State.idle (s : State) : Bool := (readyList s).isEmpty
 
-/-- synchronous part of `dispatch` + `spawn` -/
-def dispatchStep (s : State) (i : Val) : State :=
+/-- `ArcAction::dispatch` proper: `in_flight += 1`, `current_version = dispatched`, `input = Some`, spawn -/
+def dispatchCore (s : State) (i : Val) : State :=
   { s with
     inFlight := s.inFlight + 1
     input := some i
     lastInput := some i
     tasks := s.tasks ++ [{ curVersion := s.dispatched }] }
+
+/-- synchronous part of `dispatch` + `spawn`; nothing happens while resource loading is suppressed
+(`if !is_suppressing_resource_load() { … }`) or through a disposed arena handle (`try_get_value()`
+is `None`: the call panics before touching the action) -/
+def dispatchStep (s : State) (i : Val) : State :=
+  if s.suppress || s.disposed then s else dispatchCore s i
 
 /-- `ActionAbortHandle::abort` on the handle of dispatch `k` (a handle can be used once;
 after the task finished the receiver is gone and `send` fails silently) -/
@@ -192,9 +208,17 @@ def pollStep (s : State) (j : Nat) : State :=
   | none => s
   | some id => pollTask s id
 
-/-- `ArcAction::clear` -/
-def clearStep (s : State) : State :=
+def clearCore (s : State) : State :=
   { s with value := none, log := s.log ++ [.cleared] }
+
+/-- `ArcAction::clear`; `Action::clear` = `inner.try_with_value(|inner| inner.clear())` does nothing
+once the handle is disposed -/
+def clearStep (s : State) : State :=
+  if s.disposed then s else clearCore s
+
+def suppressStep (s : State) (b : Bool) : State := { s with suppress := b }
+
+def disposeStep (s : State) : State := { s with disposed := true }
 
 def step (s : State) : Event → State
   | .dispatch i => dispatchStep s i
@@ -203,6 +227,8 @@ def step (s : State) : Event → State
   | .ready k v => readyStep s k v
   | .poll j => pollStep s j
   | .clear => clearStep s
+  | .suppress b => suppressStep s b
+  | .dispose => disposeStep s
 
 def run (s : State) (evs : List Event) : State := evs.foldl step s
 
@@ -321,6 +347,8 @@ structure State where
   tasks : List Task := []
   /-- ghost: number of `dispatch_sync` calls -/
   nsync : Nat := 0
+  suppress : Bool := false
+  disposed : Bool := false
 deriving DecidableEq, Repr
 
 inductive Event where
@@ -329,6 +357,8 @@ inductive Event where
   | cancel (s : Nat)
   | ready (t : Nat) (v : Val)
   | poll (j : Nat)
+  | suppress (b : Bool)
+  | dispose
 deriving DecidableEq, Repr
 
 def init : State := {}
@@ -341,18 +371,25 @@ def readyList (s : State) : List Nat := readyFrom 0 s.tasks
 
 def State.idle (s : State) : Bool := (readyList s).isEmpty
 
-/-- `ArcMultiAction::dispatch` -/
-def dispatchStep (s : State) (i : Val) : State :=
+def dispatchCore (s : State) (i : Val) : State :=
   { s with
     subs := s.subs ++ [{ input := some i, value := none, pending := true, canceled := false }]
     tasks := s.tasks ++ [{ sub := s.subs.length, input := i }] }
 
-/-- `ArcMultiAction::dispatch_sync` -/
-def dispatchSyncStep (s : State) (v : Val) : State :=
+def dispatchSyncCore (s : State) (v : Val) : State :=
   { s with
     subs := s.subs ++ [{ input := none, value := some v, pending := false, canceled := false }]
     version := s.version + 1
     nsync := s.nsync + 1 }
+
+/-- `ArcMultiAction::dispatch` (nothing while suppressed; `MultiAction::dispatch` is `try_with_value`:
+nothing once disposed) -/
+def dispatchStep (s : State) (i : Val) : State :=
+  if s.suppress || s.disposed then s else dispatchCore s i
+
+/-- `ArcMultiAction::dispatch_sync` (not subject to suppression; nothing once disposed) -/
+def dispatchSyncStep (s : State) (v : Val) : State :=
+  if s.disposed then s else dispatchSyncCore s v
 
 def cancelStep (s : State) (k : Nat) : State :=
   { s with
@@ -393,6 +430,8 @@ def step (s : State) : Event → State
   | .cancel k => cancelStep s k
   | .ready k v => readyStep s k v
   | .poll j => pollStep s j
+  | .suppress b => { s with suppress := b }
+  | .dispose => { s with disposed := true }
 
 def run (s : State) (evs : List Event) : State := evs.foldl step s
 
